@@ -366,6 +366,11 @@ def want_leaves(F):
     return w
 
 
+def _split_generic(ty):
+    from .sym import split_generic
+    return split_generic(ty or "")
+
+
 def handwritten_leaves(F):
     """{key: set of leaf types decoded by hand-written code}, key = ('type', T) for the Deserialize impl of T (its nested visitors
     included, whatever they are called), ('with', struct, field) for a `deserialize_with` function of a member, ('fn', path) for
@@ -404,10 +409,15 @@ def handwritten_leaves(F):
             # a visitor type handed to deserialize_seq / deserialize_map ..: its visit_* methods belong to this decoder
             if x.get("k") in ("call", "mcall") and (c or "").startswith("serde_core::de::Deserializer::deserialize_"):
                 for t in ta:
+                    head, targs_t = _split_generic(t)
                     for g in F.fns:
                         im = g.get("impl") or {}
-                        if im.get("trait") == "serde_core::de::Visitor" and g["name"].startswith("visit_") and (im["self_ty"].get("path") or im["self_ty"].get("s")) == t:
+                        if im.get("trait") == "serde_core::de::Visitor" and g["name"].startswith("visit_") and (im["self_ty"].get("path") or im["self_ty"].get("s")) in (t, head):
                             calls.setdefault(f["path"], set()).add(g["path"])
+                            # a generic visitor `impl<T, F> Visitor for V<T, F>` used as V<X, Y>: what its T is here
+                            _h, margs = _split_generic(im["self_ty"].get("s") or "")
+                            if margs and len(margs) == len(targs_t):
+                                inst.setdefault((f["path"], g["path"]), []).append(dict(zip(margs, targs_t)))
 
     def closure(path):
         seen, todo = set(), [path]
@@ -473,6 +483,23 @@ def handwritten_leaves(F):
     for p, ls in own.items():
         if p not in attributed:
             out[("fn", p)] = ls
+    # a documented type whose decoder is now generated by `#[serde(from = "X")]` / `try_from`: the generated body decodes one X
+    # with X's own decoder and converts it -- X is its leaf type (no visitor of its own is involved)
+    for key in WANT_LEAVES:
+        if key[0] != "type" or key in out:
+            continue
+        fs = F.impl_fn("serde_core::de::Deserialize", key[1], "deserialize")
+        if len(fs) != 1 or fs[0].get("body") is None or fs[0]["pv"] == "user":
+            continue
+        xs, visitor = set(), False
+        for x in H.walk(fs[0]["body"]):
+            c = x.get("callee") or ""
+            if c.startswith("serde_core::de::Deserializer::deserialize_"):
+                visitor = True
+            if c == "serde_core::de::Deserialize::deserialize" and x.get("targs"):
+                xs.add(erase_lt(x["targs"][0]))
+        if xs and not visitor:
+            out[key] = xs
     return out
 
 
